@@ -7,7 +7,7 @@ from hypothesis import strategies as st
 
 from .cells import STYLES
 
-NARROW = "abcXYZ 0-_134m[;"  # incl. characters that also occur inside escape sequences
+NARROW = "abcXYZ 0-_134m[;{}%\\"  # incl. characters that also occur inside escape sequences, and those that mean something to str.format, % and re
 CTRL = "\n\t\r\x00\x07\x7f"  # control characters other than ESC / CSI
 WIDE = "Ｅ中한"  # fullwidth E, CJK, Hangul: two columns
 COMBINING = "̤́"  # zero columns
